@@ -1191,7 +1191,12 @@ class Interp:
         if isinstance(o, PyDict):
             return self.dict_lookup(o, k, ctx)
         if isinstance(o, type) and issubclass(o, enum.Enum):
-            raise Unsupported("Enum[name]")
+            if isinstance(k, str):
+                try:
+                    return o[k]
+                except KeyError:
+                    raise PyExc(ExcVal("KeyError", (k,)))
+            raise Unsupported("Enum[symbolic name]")
         for mm in self.method_models:
             r = mm(self, o, "__getitem__", [k], {}, ctx)
             if r is not NotImplemented:
@@ -1220,6 +1225,15 @@ class Interp:
         return d.d[keys[i]]
 
     def seq_index(self, s, k, ctx):
+        if isinstance(k, int) and k >= 0:
+            pos = 0
+            for g in s.segs:
+                if isinstance(g, Elems):
+                    if k < pos + len(g.terms):
+                        return self._elem_value(s, g.terms[k - pos])
+                    pos += len(g.terms)
+                else:
+                    break
         L = s.length()
         if not isz(k) and not isz(L):
             if -L <= k < L:
